@@ -70,6 +70,9 @@ func stallSignature(ws []waiterT) (sig string, culprit *waiterT) {
 	return "C32-stress-stall-lock-waiters-" + strings.Join(fs, "+"), nil
 }
 
+// stalledListedSeen: trigger variants of the stalled-reader kind whose listed finding was reproduced in this run.
+var stalledListedSeen = map[string]bool{}
+
 // stalledBase is the fixed scenario of the stalled-reader sweep: a little ordinary traffic on t/# next to the stalled
 // client, every trigger variant once per run.
 func stalledBase(variant string, k int) scenarioT {
@@ -215,6 +218,11 @@ func checkStress32(sc scenarioT, r *evid.Rec) []evid.Disc {
 		r.NotAsserted()
 		return nil
 	}
+	if sc.Stalled != nil && stalledListedSeen[sc.Stalled.Variant] && !evid.ReplayMode() {
+		// like a listed matrix wedge: confirmed once in this run (the sweep comes first), every further one only costs time
+		r.Label("stalled-reader:variant-not-run-again(listed finding already reproduced in this run):" + sc.Stalled.Variant)
+		sc.Stalled = nil
+	}
 	cr, err := runChild(sc, stallWindowC, childLimit, openSignatures("C32"))
 	if err != nil {
 		r.Inconclusive("stress child process could not be started: " + err.Error())
@@ -280,6 +288,9 @@ func checkStress32(sc scenarioT, r *evid.Rec) []evid.Disc {
 		r.Label("stress:stalled-with-lock-waiters")
 		r.NonTrivial("stress|" + scenarioKey(sc))
 		sig, culprit := nameStall(sc, res.Waiters, res.StalledHandlerG)
+		if sc.Stalled != nil && r.IsKnown(sig) && strings.HasPrefix(sig, "C32-stalled-reader-"+sc.Stalled.Variant) {
+			stalledListedSeen[sc.Stalled.Variant] = true
+		}
 		if sig == ownOnly {
 			r.Label("stalled-reader:only-the-stalled-connection's-own-goroutines-wait(flow control, not judged)")
 			r.NotAsserted()
